@@ -253,7 +253,20 @@ def _regex_parser(ck, R1, pq, ms, anchor=None):
         ck.ob(R1, pq.key(None, tag), ok, "%s (witness string %r parses into its parts)" % (tag, witness) if ok else
               "%s violated: for %r %s" % (tag, witness, why), pq.where(ms[0]))
     rets = pq.returns()
-    okg = bool(rets) and all(pq.xnorm(r.value).endswith(").groupdict()") and (".match(" in pq.xnorm(r.value) or ".fullmatch(" in pq.xnorm(r.value)) for r in rets)
+    def _is_groups(r):
+        """match.groupdict(), or the four named groups spelled out: {'cluster': m.group('cluster'), ...} / m['cluster']."""
+        x = pq.xnorm(r.value)
+        if x.endswith(").groupdict()") and (".match(" in x or ".fullmatch(" in x):
+            return True
+        v = pq.expand(r.value)
+        if isinstance(v, ast.Dict) and {A.const_str(k) for k in v.keys if k is not None} == {"cluster", "module", "function", "version"} and len(v.keys) == 4:
+            for k, val in zip(v.keys, v.values):
+                g = val.args[0] if isinstance(val, ast.Call) and A.call_attr(val) == "group" and len(val.args) == 1 else val.slice if isinstance(val, ast.Subscript) else None
+                if g is None or A.const_str(g) != A.const_str(k) or not (".match(" in A.norm(val) or ".fullmatch(" in A.norm(val)):
+                    return False
+            return True
+        return False
+    okg = bool(rets) and all(r.value is not None and _is_groups(r) for r in rets)
     ck.ob(R1, pq.key(None, "groupdict"), okg, "the parts are the named groups" if okg else "parse_qualified_name does not return match.groupdict()", pq.where())
     return shape
 
@@ -354,20 +367,49 @@ def check_stub_from_stored_state(ck, R3):
           "from_qualified_name no longer falls back to UnboundExternalMementoFunction", fq.where())
 
 
+def _pattern_literal(pq, e, depth=0):
+    """The pattern text an expression denotes: a literal, a local / module-level / class-level constant holding one,
+    or re.compile(<one of those>)."""
+    if depth > 5 or e is None:
+        return None
+    if A.const_str(e) is not None:
+        return e
+    if isinstance(e, ast.Call) and A.call_dotted(e) == "re.compile" and e.args:
+        return _pattern_literal(pq, e.args[0], depth + 1)
+    if isinstance(e, ast.Name):
+        if pq.df.is_local(e.id):
+            ds = [d for i in pq.nodes(e) for d in pq.df.reaching(i, e.id)]
+            if len(ds) == 1 and ds[0].kind == "assign":
+                return _pattern_literal(pq, ds[0].value, depth + 1)
+            return None
+        return _pattern_literal(pq, pq.fi.module.assigns.get(e.id), depth + 1)
+    if isinstance(e, ast.Attribute) and isinstance(e.value, ast.Name) and pq.fi.cls is not None and e.value.id in ("cls", "self", pq.fi.cls.node.name):
+        for st in pq.fi.cls.node.body:
+            if isinstance(st, ast.Assign) and any(isinstance(t, ast.Name) and t.id == e.attr for t in st.targets):
+                return _pattern_literal(pq, st.value, depth + 1)
+    return None
+
+
 def check_parser(ck, R1):
     pq = FA(ck, FR + ".parse_qualified_name")
-    ms = [c for c in pq.calls("match") if A.call_dotted(c) in ("re.match", "re.fullmatch")]
-    if len(ms) == 1 and A.const_str(ms[0].args[0]):
-        return _regex_parser(ck, R1, pq, ms)
-    # a pattern compiled once at module level: PATTERN = re.compile(<literal>) ... PATTERN.match(name)
+    # re.match(<pattern>, name) / re.fullmatch(...) / <compiled pattern>.match(name), the pattern being a literal or
+    # a constant defined once at module / class level
+    found = []
     for c in pq.calls("match") + pq.calls("fullmatch"):
-        recv = A.call_recv(c)
-        if isinstance(recv, ast.Name):
-            v = pq.fi.module.assigns.get(recv.id)
-            if isinstance(v, ast.Call) and A.call_dotted(v) == "re.compile" and v.args and A.const_str(v.args[0]):
-                pseudo = ast.Call(func=c.func, args=[v.args[0]] + list(c.args), keywords=[])
-                ast.copy_location(pseudo, c)
-                return _regex_parser(ck, R1, pq, [pseudo], anchor=c)
+        if A.call_dotted(c) in ("re.match", "re.fullmatch"):
+            lit = _pattern_literal(pq, c.args[0]) if c.args else None
+        else:
+            lit = _pattern_literal(pq, A.call_recv(c))
+        if lit is not None:
+            found.append((c, lit))
+    if len(found) == 1:
+        c, lit = found[0]
+        direct = A.call_dotted(c) in ("re.match", "re.fullmatch")
+        if direct and c.args[0] is lit:
+            return _regex_parser(ck, R1, pq, [c])
+        pseudo = ast.Call(func=c.func, args=[lit] + list(c.args[1:] if direct else c.args), keywords=[])
+        ast.copy_location(pseudo, c)
+        return _regex_parser(ck, R1, pq, [pseudo], anchor=c)
     return _partition_parser(ck, R1, pq)
 
 
@@ -653,8 +695,31 @@ def check(ck):
             _check_asserts(ck, R3, fri, env2, "reference-of-stub")
             # the stub's cluster_name property must tolerate being read while the reference is built
             prop = ck.repo.func("external.ExternalMementoFunctionBase.cluster_name")
-            reads_ref = any(isinstance(n, ast.Attribute) and A.norm(n) == "self._fn_reference.cluster_name" for n in A.walk_body(prop.node))
-            guarded = any(isinstance(i, ast.If) and "self._fn_reference is None" in A.norm(i.test) for i in A.walk_body(prop.node))
+            pfa = FA(ck, prop)
+            reads = [n for n in A.walk_body(prop.node) if isinstance(n, ast.Attribute) and A.norm(n) == "self._fn_reference.cluster_name"]
+            reads_ref = bool(reads)
+
+            def _ref_present(lit):
+                return lit in (("self._fn_reference is None", False), ("self._fn_reference", True))
+
+            def _guarded(n):
+                """The read happens only where the reference exists: on every path condition of its statement, or
+                inside the arm of a conditional expression / `and` that tests it."""
+                x = n
+                while x is not None and not isinstance(x, ast.stmt):
+                    par = pfa.pm.get(x)
+                    if isinstance(par, ast.IfExp) and x is not par.test and pfa.nodes(par):
+                        if any(_ref_present(l_) for l_ in pfa._atoms(par.test, pfa.nodes(par)[0], x is par.body)):
+                            return True
+                    if isinstance(par, ast.BoolOp) and isinstance(par.op, ast.And) and pfa.nodes(par):
+                        before = par.values[:par.values.index(x)] if x in par.values else []
+                        if any(_ref_present(l_) for v_ in before for l_ in pfa._atoms(v_, pfa.nodes(par)[0], True)):
+                            return True
+                    x = par
+                conds = pfa.conditions(pfa.stmt_of(n)) if pfa.nodes(n) else set()
+                return conds is not None and all(any(_ref_present(l_) for l_ in c_) for c_ in conds)
+
+            guarded = all(_guarded(n) for n in reads)
             fr_reads = any(A.norm(n) == "memento_fn.cluster_name" for n in A.walk_body(fri.node) if isinstance(n, ast.Attribute))
             needs_guard = fr_reads and env2.get("cluster_name") != NOTNONE
             okp = (not needs_guard) or (not reads_ref) or guarded
@@ -697,7 +762,9 @@ def check(ck):
     while n is not None:
         p = gm.pm.get(n)
         if isinstance(p, ast.Try) and any(gm.inside(rm, b) for b in p.body):
-            hs += [A.norm(h.type) for h in p.handlers if h.type is not None]
+            for h in p.handlers:
+                if h.type is not None:
+                    hs += [A.norm(t) for t in (h.type.elts if isinstance(h.type, ast.Tuple) else [h.type])]
         n = p
     okh = "FunctionNotFoundError" in hs
     ck.ob(R3, gm.key(rm, "unresolvable-is-absent"), okh, "a memento whose function cannot be mapped counts as absent" if okh else
